@@ -48,7 +48,8 @@ chk = Check('C14', 'exploration',
             'position between consecutive atomic layers (quick: every position for the first and last shift index, '
             'lowest/middle/highest gap for the others) x fault displacement (quick: rotating through the menu, '
             'thorough: full menu for the plain slab).  A search failure (AssertionError) with the default maxindex '
-            'is a failure.  A case is one call of free_surface_basis or one '
+            'is a failure.  Thorough builds a FreeSurface and a StackingFault object per orientation, quick one StackingFault '
+            'object (a FreeSurface subclass) for both parts.  A case is one call of free_surface_basis or one '
             '(cell,plane,cut) orientation with all its slabs/faults; non-trivial = accepted orientation whose plane '
             'has at least two non-zero indices (the lcm construction and both searches do real work)')
 chk.assumptions = [
@@ -741,8 +742,10 @@ def slab(case):
             return [Fail(key=who + '-compatible-orientation-refused', msg='refused although the in-plane vectors have no cut-axis component (%.3g): %s' % (c, e), hkl=h)]
         return [Fail(key=who + '-harness-ambiguous-compatibility', msg='cut-axis component %.3g is neither clearly zero nor clearly non-zero' % c, hkl=h)]
 
+    # quick: one StackingFault object serves both parts (its constructor and surface() forward to FreeSurface's, so the
+    # FreeSurface code under test is the same; the second, identical basis search is what is saved)
     try:
-        fs = FreeSurface(list(h), ucell, **kw)
+        fs = (FreeSurface if THOROUGH else StackingFault)(list(h), ucell, **kw)
     except AssertionError as e:
         if 'Failed to find' in str(e):
             return [search_failed(e, h, 'FreeSurface-')]
@@ -805,7 +808,7 @@ def slab(case):
 
     # ---------------- stacking fault
     try:
-        sf = StackingFault(list(h), ucell, **kw)
+        sf = StackingFault(list(h), ucell, **kw) if THOROUGH else fs
     except ValueError as e:
         return classify_refusal(e, 'StackingFault')
     f, U2 = judge_uvws(cell, hc, sf.uvws, cut, four, True, 'sf-')
